@@ -100,6 +100,18 @@ def structures(tier):
     return out
 
 
+def _make_to(estimator, cons, obj, grid_size, flip, via_set_params):
+    """either constructed with its final parameters, or constructed with defaults and configured through set_params afterwards
+    (what clone / GridSearchCV / Pipeline do): fit must depend on the parameters as they are at fit time"""
+    from fairlearn.postprocessing import ThresholdOptimizer
+
+    if not via_set_params:
+        return ThresholdOptimizer(estimator=estimator, constraints=cons, objective=obj, grid_size=grid_size, flip=flip, prefit=True, predict_method="predict_proba")
+    to = ThresholdOptimizer(estimator=estimator, prefit=True)
+    to.set_params(constraints=cons, objective=obj, grid_size=grid_size, flip=flip, predict_method="predict_proba")
+    return to
+
+
 def fit_symbolic(cfg, y, groups, grid_size):
     """one symbolic run of the real fit + _pmf_predict on the training rows"""
     from fairlearn.postprocessing import ThresholdOptimizer
@@ -109,8 +121,7 @@ def fit_symbolic(cfg, y, groups, grid_size):
     s = [real(f"s{i}", 0, 1) for i in range(n)]
     X = np.arange(n).reshape(-1, 1)
     sf = [GROUPS[g] for g in groups]
-    to = ThresholdOptimizer(estimator=Scorer(s), constraints=cons, objective=obj, grid_size=grid_size, flip=flip, prefit=True,
-                            predict_method="predict_proba")
+    to = _make_to(Scorer(s), cons, obj, grid_size, flip, via_set_params=(grid_size % 2 == 0))
     to.fit(X, list(y), sensitive_features=sf)
     pm = to._pmf_predict(X, sensitive_features=sf)
     return to, s, np.asarray(pm, dtype=object)
@@ -123,8 +134,7 @@ def fit_concrete(cfg, y, groups, grid_size, scores):
     n = len(y)
     X = np.arange(n).reshape(-1, 1)
     sf = [GROUPS[g] for g in groups]
-    to = ThresholdOptimizer(estimator=Scorer([float(v) for v in scores]), constraints=cons, objective=obj, grid_size=grid_size, flip=flip, prefit=True,
-                            predict_method="predict_proba")
+    to = _make_to(Scorer([float(v) for v in scores]), cons, obj, grid_size, flip, via_set_params=(grid_size % 2 == 0))
     to.fit(X, list(y), sensitive_features=sf)
     pm = to._pmf_predict(X, sensitive_features=sf)
     return to, np.asarray(pm, dtype=float)
